@@ -353,6 +353,10 @@ type c19Station struct {
 	started  bool
 }
 
+// c19PreStart, when set, is called on the station after it is assembled and before its ingest
+// workers start (the place to replace loggers / the liveness tester without racing with workers).
+var c19PreStart func(st *c19Station)
+
 // c19BringUp mirrors main.go between ParseConfig and the signal loop. It returns a class naming the
 // start-up stage that refused the configuration ("" when the station is up), or a violation key.
 func c19BringUp(x *c19Ctx, conf *Config, withIngest bool) (st *c19Station, rejected string, key string, msg string) {
@@ -405,6 +409,9 @@ func c19BringUp(x *c19Ctx, conf *Config, withIngest bool) (st *c19Station, rejec
 	}
 	if zerr != nil {
 		st.zmq = nil
+	}
+	if c19PreStart != nil {
+		c19PreStart(st)
 	}
 	if !withIngest {
 		return st, "", "", ""
